@@ -92,6 +92,148 @@ def judge(node, step, tr):
     return uniq
 
 
+def evolver_relabel_scenarios(coll, stats):
+    """The production way of renaming an app label: the app keeps its
+    package, its AppConfig gets a new label and its evolution says
+    RenameAppLabel(old, new, legacy_app_label=old); run through the real
+    Evolver (and through the evolve command) with relations into the app
+    from another app.  Afterwards the stored signature knows the app under
+    the new label only, every relation names the new label, and the
+    database foreign keys validate."""
+    from vf.spec import F, M, A, P
+    from vf import materialize as MZ, bootstrap as B, drivers as D
+    from vf import rows as RW
+    from django_evolution.mutations import RenameAppLabel
+    author = M('Author', [F('name', 'Char', max_length=20)])
+    for driver in ('D2', 'D3'):
+        for keep_tables in (True,):
+            v0 = P(A('va', [S.clone(author)]),
+                   A('vab', [M('Book', [
+                       F('title', 'Char', max_length=20),
+                       F('author', 'FK', to='va.Author', null=True),
+                       F('editors', 'M2M', to='va.Author')])]))
+            MZ.install(v0, evolutions={
+                'va': {'SEQUENCE': [], 'modules': {}},
+                'vab': {'SEQUENCE': [], 'modules': {}}})
+            B.fresh_db('default')
+            B.reset_globals()
+            r = D.d2_all()
+            replay = {'scenario': 'evolver-relabel', 'driver': driver}
+            stats['evolver_scenarios'] = stats.get('evolver_scenarios',
+                                                   0) + 1
+            if not r.ok:
+                coll.add('C11|evolver-relabel|setup-fails|%s' % r.exc_type,
+                         replay, {'error': str(r.exc)[:200]})
+                continue
+            RW.populate(v0, 'R2', 'default')
+            # same package, new label; the tables keep their names
+            renamed = A('vz', [M('Author', [F('name', 'Char',
+                                              max_length=20)],
+                                 db_table='va_author')])
+            renamed['package'] = 'va'
+            v1 = P(renamed, A('vab', [M('Book', [
+                F('title', 'Char', max_length=20),
+                F('author', 'FK', to='vz.Author', null=True),
+                F('editors', 'M2M', to='vz.Author')])]))
+            MZ.install(v1, evolutions={
+                'vz': {'SEQUENCE': ['relabel'], 'modules': {'relabel': {
+                    'MUTATIONS': [RenameAppLabel(
+                        'va', 'vz', legacy_app_label='va')]}}},
+                'vab': {'SEQUENCE': [], 'modules': {}}})
+            B.reset_globals()
+            res = D.d2_all() if driver == 'D2' else D.d3()
+            if not res.ok:
+                coll.add('C11|evolver-relabel|run-fails|%s|%s' % (
+                    res.exc_type, driver), replay,
+                    {'error': str(res.exc)[:300],
+                     'stderr': getattr(res, 'stderr', '')[:200]})
+                continue
+            sig = D.stored_signature()
+            ids = sorted(a.app_id for a in sig.app_sigs)
+            if 'va' in ids or 'vz' not in ids:
+                coll.add('C11|evolver-relabel|app-not-relabelled-in-stored-'
+                         'signature|%s' % driver, replay, {'apps': ids})
+            for app_id, model, field, rel in walk_refs(sig):
+                al, mn = rel.split('.', 1)
+                a = sig.get_app_sig(al)
+                if al == 'va' or a is None or a.get_model_sig(mn) is None:
+                    coll.add('C11|evolver-relabel|stale-or-dangling-'
+                             'reference|%s' % driver, replay,
+                             {'ref': '%s.%s.%s -> %s' % (app_id, model,
+                                                         field, rel)})
+                    break
+            fk = O.fk_check('default')
+            if fk:
+                coll.add('C11|evolver-relabel|foreign-key-check|%s' % driver,
+                         replay, {'rows': fk[:3]})
+
+
+def evolver_cross_app_scenarios(coll, stats):
+    """Two apps evolved in ONE Evolver run: the first renames something the
+    second one's foreign keys depend on (a referenced primary key, a
+    referenced model kept in its table), the second rebuilds the referring
+    table.  Every database foreign key must still point at an existing
+    column and validate."""
+    from vf.spec import F, M, A, P
+    from vf import bootstrap as B, drivers as D, engine_b as EB
+    from vf import rows as RW
+    v0 = P(A('va', [M('Author', [F('code', 'Int', primary_key=True),
+                                 F('name', 'Char', max_length=20)])]),
+           A('vab', [M('Book', [F('title', 'Char', max_length=20),
+                                F('pages', 'Int', null=True),
+                                F('author', 'FK', to='va.Author',
+                                  null=True)])]))
+    first = [
+        ('pk-rename', ['RenameField', 'Author', 'code', 'key', {}]),
+        ('field-change', ['ChangeField', 'Author', 'name',
+                          {'max_length': 30}, None, None]),
+    ]
+    second = [
+        ('delete-field', ['DeleteField', 'Book', 'pages']),
+        ('add-field', ['AddField', 'Book', 'n1', 'Int', {'null': True},
+                       None]),
+    ]
+    for (n1, m1) in first:
+        for (n2, m2) in second:
+            for driver in ('D2', 'D3'):
+                hist = EB.History(v0, [('va', 'e1', [m1]),
+                                       ('vab', 'e1', [m2])])
+                hist.install(0)
+                B.fresh_db('default')
+                B.reset_globals()
+                if not D.d2_all().ok:
+                    continue
+                RW.populate(v0, 'R2', 'default')
+                hist.install(2)
+                B.reset_globals()
+                res = EB.upgrade(driver)
+                stats['evolver_scenarios'] = stats.get(
+                    'evolver_scenarios', 0) + 1
+                replay = {'scenario': 'evolver-cross-app', 'first': n1,
+                          'second': n2, 'driver': driver}
+                shape = '%s+%s|%s' % (n1, n2, driver)
+                if not res.ok:
+                    coll.add('C11|evolver-cross-app|run-fails|%s|%s' % (
+                        res.exc_type, shape), replay,
+                        {'error': str(res.exc)[:300]})
+                    continue
+                tables = set(O.list_tables('default'))
+                bad = None
+                for t in sorted(tables):
+                    for frm, target, to in O.table_dump(t)['fks']:
+                        if target not in tables or to not in [
+                                c[0] for c in
+                                O.table_dump(target)['columns']]:
+                            bad = '%s.%s -> %s.%s' % (t, frm, target, to)
+                if bad:
+                    coll.add('C11|evolver-cross-app|fk-to-missing-column|%s'
+                             % shape, replay, {'fk': bad})
+                fk = O.fk_check('default')
+                if fk:
+                    coll.add('C11|evolver-cross-app|foreign-key-check|%s'
+                             % shape, replay, {'rows': fk[:3]})
+
+
 def c11_starts():
     from vf.spec import F, M, A, P
     out = [s for s in starts.s2() + starts.s3()]
@@ -130,7 +272,13 @@ def run(tier, seed, confirm=True):
             'vf.checks.c11.work', tasks, seed=seed):
         common.merge_stats(total, stats)
         coll.merge(violations)
+    from vf import bootstrap
+    bootstrap.setup()
+    extra = {}
+    evolver_relabel_scenarios(coll, extra)
+    evolver_cross_app_scenarios(coll, extra)
     coverage = {
+        'evolver_relabel_scenarios': extra.get('evolver_scenarios', 0),
         'states': total['states'],
         'transitions': total['transitions'],
         'traces_validated_against_impl': total['validated'],
@@ -153,9 +301,24 @@ def run(tier, seed, confirm=True):
         'meaningful'])
 
 
+def replay_scenario(doc):
+    coll = findings.Collector(PROP)
+    evolver_relabel_scenarios(coll, {})
+    evolver_cross_app_scenarios(coll, {})
+    for fp, ent in coll.by_fp.items():
+        print('  %s %s' % (fp, str(ent['detail'])[:300]))
+    if doc['fingerprint'] in coll.by_fp:
+        print('REPRODUCED %s' % doc['fingerprint'])
+        return 1
+    print('NOT-REPRODUCED')
+    return 0
+
+
 def replay(path):
     doc = common.load_replay(path)
     r = doc['replay']
+    if r.get('scenario') in ('evolver-relabel', 'evolver-cross-app'):
+        return replay_scenario(doc)
     node = EA.start_node(r['start'], r.get('rows'))
     fps = []
     for step in r['steps']:
